@@ -168,6 +168,12 @@ def run(ctx, res):
         res.extra["explorer"] = ex
         res.notes.append("explorer: direct %s, line %s; without guards the counterexample words are %r and %r"
                          % (ex[0], ex[1], ex[2][1:], ex[3][1:]))
+    # category lists with repeated entries (order and multiplicity must survive)
+    for items in (["work", "errand", "family", "work", "home"], ["a", "a"], ["b", "a", "b", "c", "a"], ["x", "", "x"]):
+        res.evaluations += 1
+        got = via_categories(items)
+        if got != items:
+            res.fail("C07 categories: a list with repeated items is not read back as written", items, observed=got, expected=items)
     res.sample({"s": "a;b,c\\Nd\r\ne", "encoded": escape_char("a;b,c\\Nd\r\ne"), "read back through SUMMARY": via_line("a;b,c\\Nd\r\ne")})
     res.sample({"s": cases[len(cases) // 2][1], "row": impl[len(cases) // 2]})
 
